@@ -226,7 +226,7 @@ func runC04(r *Runner, g *Gen, tier string) string {
 		if g.r.Bool() {
 			v, kind = g.jarr(1+g.r.Intn(3)), "arr"
 		}
-		res := execOp(L(A("jrt"), A("enc"), v))
+		res := jenc(r, v)
 		if !strings.HasPrefix(res, "ok x") {
 			continue
 		}
